@@ -431,6 +431,8 @@ class C16(Spec):
         q.unwindset = {f + '.0': 5 for f in LIST_LOOPS}
         q.mem_gb = 7
         qs.append(q)
+        for q in qs:
+            q.budget = max(q.budget, 1800)      # n3.free_all / n3.jwks_free: 110-440 s depending on load
         return qs
 
 
@@ -809,11 +811,12 @@ _T = {
          'The container model is checked against the real jansson on every run (conformance precheck).',
          'the container itself is the jansson model; values <= 2 ASCII bytes; invalid UTF-8 excluded'),
  'C16': ('Model checking by one-step induction over every keyring of 0..3 (4) items built by the real list code: each operation vs a reference '
-         'sequence, the full doubly-linked-list invariant re-established, exact release accounting, CBMC memory-safety checks on.',
+         'sequence, the full doubly-linked-list invariant re-established, exact release accounting, CBMC memory-safety checks on; after a real '
+         'load of a single JWK exactly what the release path will free is live.',
          'list STRUCTURE is concrete per query (a symbolic structure makes the release path explode), contents symbolic'),
  'C17': ('Fault enumeration by the solver: for each scenario every index k of the allocations it performs fails (one query per k, inputs '
          'symbolic): no memory-safety failure, failure reported through the documented channel or result identical in kind to the fault-free run; '
-         'object lifecycle (new / configure / free) under the fault with pointer checks (no dangling handle, no double release).',
+         'object lifecycle (new / setkey / integer, string and JSON-typed sets / free) under the fault with pointer checks (no dangling handle, no double release).',
          'OpenSSL/GnuTLS internal allocations are not routed through jwt_set_alloc; leaks under fault are not asserted'),
  'C18': ('Sequential footprint condition decided by the solver (Bernstein): on all inputs within the C01/C10 bounds verify and generate '
          'leave every static-lifetime non-const object of the libjwt units (enumerated from the goto symbol table on every run), the shared key '
@@ -829,8 +832,10 @@ _T = {
  'C20': ('Model checking of the real jwt-verify main() over API stubs: for n tokens (argv and stdin routes) and ALL 2^n verdict vectors exit '
          'status == 0 <=> all verified (n up to 257 / 513); every option documented in usage() (parsed from the source each run) in every spelling '
          'is accepted and its argument reaches the library, likewise for jwt-generate; every stdin line (last one with or without newline) reaches '
-         'the library as one token; key2jwk writes EC x, y, d with the full field width for every integer value and the importer accepts them.',
-         'getopt_long is a model (no permutation, no abbreviations; checked against glibc on every run); key2jwk: only process_ec_key (fixed-width EC members) is encoded; jwk2key is covered only through the library properties'),
+         'the library as one token; key2jwk writes EC x, y, d with the full field width for every integer value and the importer accepts them; '
+         'one parse_one_file() call of key2jwk from an arbitrary state of its statics converts THAT file (PEM key -> converter of its type, '
+         'otherwise raw secret of exactly the bytes read).',
+         'getopt_long is a model (no permutation, no abbreviations; checked against glibc on every run); key2jwk: process_ec_key and parse_one_file are encoded (RSA/OKP/oct converters are contract stubs); jwk2key is covered only through the library properties'),
 }
 for _k, (_a, _b) in _T.items():
     if _k in PROPS:
